@@ -365,12 +365,6 @@ func (b *bench) judgeTable(mux *httpd.Mux, calls, table []int, desc string, path
 					fail(fmt.Sprintf("handler of route #%d (%s %s) ran, the documented walk finds no route", o.calls[0], b.specs[o.calls[0]].method, b.specs[o.calls[0]].pattern))
 					return false
 				}
-				for n, v := range o.params {
-					if v != "" {
-						fail(fmt.Sprintf("no-route handler sees RouteParam(%q)=%q", n, v))
-						return false
-					}
-				}
 				continue
 			}
 			st.Matched++
